@@ -59,7 +59,11 @@ func c18Creates() map[string]map[string]interface{} {
 	kf := base()
 	kf["kafka_connect_param"] = map[string]interface{}{"address": "kafka:9092", "topic": "t", "enable_sasl": true,
 		"sasl": map[string]interface{}{"username": c18Canaries[2], "password": c18Canaries[3], "mechanisms": "PLAIN", "security_protocol": "SASL_SSL"}}
-	return map[string]map[string]interface{}{"milvus-token": tok, "milvus-userpass": up, "kafka-sasl": kf}
+	// SASL credentials filled in while the switch that turns SASL on is off (they are secrets all the same)
+	kfOff := base()
+	kfOff["kafka_connect_param"] = map[string]interface{}{"address": "kafka:9092", "topic": "t", "enable_sasl": false,
+		"sasl": map[string]interface{}{"username": c18Canaries[2], "password": c18Canaries[3], "mechanisms": "PLAIN", "security_protocol": "SASL_SSL"}}
+	return map[string]map[string]interface{}{"milvus-token": tok, "milvus-userpass": up, "kafka-sasl": kf, "kafka-sasl-off": kfOff}
 }
 
 func c18Leak(where string, text string) string {
